@@ -252,6 +252,9 @@ func (x *Exec) callStatic0(fr *Frame, st *State, fn *ssa.Function, args, bind []
 		name = fn.Origin().String()
 	}
 	x.callSiteObligations(fr, st, fn, name, args, pos)
+	if x.monitorCall(fr, st, fn, args, pos) {
+		return nil
+	}
 	if r, ok := x.modelCall(fr, st, fn, name, args, resT, pos); ok {
 		return r
 	}
